@@ -167,6 +167,11 @@ def _gen_records(r, adapter, n):
         if r.chance(50):
             meta["_source"] = V.S(r.choice(["src", "other"]))
         recs.append(["rec", ds, vals, meta])
+        if adapter in ("avro", "stream", "jsonfile") and r.chance(6):
+            # the same record once more, differing ONLY in its metadata (the same artefact seen from another source)
+            m2 = dict(meta)
+            m2["_source"] = V.S("other" if meta.get("_source") == V.S("src") else "src")
+            recs.append(["rec", ds, list(vals), m2])
     return recs
 
 
@@ -195,6 +200,10 @@ def _gen_layout(r, adapter, n):
                 lay.append([k, pos])
     elif adapter == "sqlite":
         lay.append(["batch_size", r.choice([1, 2, 3, 5, 1000])])
+    elif adapter == "csvfile" and r.chance(35):
+        # an empty line among the data rows (the reader makes an all-unset record of it): with a selector that is true
+        # for unset fields it has to be treated like every other record
+        lay.append(["blank", r.randint(1, max(1, n))])
     return lay
 
 
@@ -228,6 +237,24 @@ def gen_cases(rng, tier):
         for text in ("r.n not in [1]", "1 not in r.nums"):
             cases.append({"kind": "read", "adapter": adapter, "records": recs, "layout": _gen_layout(r, adapter, n),
                           "selector": text, "form": "text", "shuffle": 7, "premade": "compiled"})
+    # a CSV file with an empty line, read with selectors that are TRUE for a record whose fields are all unset
+    for text in ("r.n is None", "not r.s", "r.s != 'a'", "not r.missing", "r.n is None or r.n > 2"):
+        for form in ("text", "compiled"):
+            recs = _gen_records(r, "csvfile", 5)
+            cases.append({"kind": "read", "adapter": "csvfile", "records": recs, "layout": [["blank", r.randint(1, 5)]],
+                          "selector": text, "form": form, "shuffle": 11})
+    # runs of records that are equal in every declared field and differ only in their metadata, filtered on that metadata
+    for adapter in ("avro", "stream", "jsonfile"):
+        base = _gen_records(r, adapter, 1)[0]
+        run = []
+        for src in ("src", "other", "other", "src", "src", "other"):
+            m2 = dict(base[3])
+            m2["_source"] = V.S(src)
+            run.append(["rec", base[1], list(base[2]), m2])
+        for text in ("r._source == 'src'", "r._source != 'src'", "r._source == 'other' or r.idx > 99"):
+            for form in ("text", "compiled"):
+                cases.append({"kind": "read", "adapter": adapter, "records": run, "layout": [], "selector": text,
+                              "form": form, "shuffle": 5})
     # --- reused selector objects on in-memory records
     r = rng.fork("thread")
     for i in range(n_thread):
@@ -271,6 +298,15 @@ def _matcher_obj(form, text):
     if form in ("text", "interp"):
         return Selector(text)
     return CompiledSelector(text)
+
+
+def _obs_h(x):
+    """hash of the deep observation; a record without an index (the all-unset record a CSV reader makes of an empty
+    line) gets the wall-clock time as `_generated`, which is not part of what was read"""
+    o = V.observe(x)
+    if _idx(x) < 0 and isinstance(o, list) and len(o) == 4 and isinstance(o[3], list) and len(o[3]) >= 4:
+        o = [o[0], o[1], o[2], o[3][:-2] + [["now"]] + o[3][-1:]]
+    return _h(o)
 
 
 def _outcome(sel, rec):
@@ -456,6 +492,20 @@ def _write_other(adapter, recs, layout, path):
         w.flush()
     finally:
         w.close()
+    if adapter == "csvfile" and any(op[0] == "blank" for op in layout):
+        with open(path, newline="", encoding="utf-8", errors="surrogateescape") as fp:
+            text = fp.read()
+        # LF row terminators: with CRLF rows and an empty line inside its sample the stdlib sniffer takes CR for the
+        # delimiter and the reader cannot be opened at all
+        text = text.replace("\r\n", "\n")
+        lt = "\n"
+        lines = text.split(lt)
+        if len(lines) > 2:          # header + at least one row (+ the empty tail after the last terminator)
+            for op in layout:
+                if op[0] == "blank":
+                    lines.insert(min(max(1, op[1]), len(lines) - 1), "")
+            with open(path, "w", newline="", encoding="utf-8", errors="surrogateescape") as fp:
+                fp.write(lt.join(lines))
     if adapter == "sqlite":
         bs = [op[1] for op in layout if op[0] == "batch_size"]
         bs = bs[0] if bs else 1000
@@ -573,7 +623,7 @@ def run_real(case):
                                                        lambda: _matcher_obj(form, text))
 
             def side(rs, err, stage=None):
-                return {"idx": [_idx(x) for x in rs], "obs": [_h(V.observe(x)) for x in rs], "err": err, "stage": stage}
+                return {"idx": [_idx(x) for x in rs], "obs": [_obs_h(x) for x in rs], "err": err, "stage": stage}
 
             return {"plain": side(plain, perr, pstage), "withsel": side(withsel, werr, wstage),
                     "post": side(post, posterr), "fresh": fresh, "impure": impure, "orders": orders,
